@@ -134,3 +134,62 @@ def tokens(fmt, positional):
     if not toks[-1]:
         toks.pop()
     return toks
+
+
+def shape(fmt):
+    """the format string with every placeholder written as `{}` (so `{x}`, `{0}` and `{}` compare equal)"""
+    if fmt is None:
+        return None
+    out = ""
+    for kind, v in pieces(fmt, ["?"] * 16):
+        out += v.replace("{", "{{").replace("}", "}}") if kind == "lit" else "{}"
+    return out
+
+
+def arg_nodes(site):
+    """HIR argument expressions of a formatting macro site, one per placeholder in placeholder order (None when not resolvable):
+    the expansion binds `let args = (&a0, &a1, ..)` - explicit arguments first, then inline captures in order of first use"""
+    pc = parse_call(site["snippet"] or "")
+    if not pc or pc[2] is None:
+        return []
+    tup = None
+    for n in walk(site["node"]):
+        if n.get("k") == "let" and n["pat"].get("k") == "pbind" and n["pat"].get("name") == "args" and "init" in n and peel(n["init"]).get("k") == "tuple":
+            tup = [peel(e) for e in peel(n["init"])["es"]]
+            break
+    if tup is None:
+        return []
+    positional = [a for a in pc[3] if not re.match(r"^[A-Za-z_][A-Za-z0-9_]*\s*=[^=]", a)]
+    order = []
+    marks = []
+    pos = 0
+    fmt = pc[2]
+    i = 0
+    while i < len(fmt):
+        if fmt[i] == "{":
+            if i + 1 < len(fmt) and fmt[i + 1] == "{":
+                i += 2
+                continue
+            j = fmt.index("}", i)
+            name = fmt[i + 1:j].split(":")[0]
+            if name == "":
+                marks.append(("pos", pos))
+                pos += 1
+            elif name.isdigit():
+                marks.append(("pos", int(name)))
+            else:
+                marks.append(("cap", name))
+            i = j + 1
+        elif fmt[i] == "}" and i + 1 < len(fmt) and fmt[i + 1] == "}":
+            i += 2
+        else:
+            i += 1
+    caps = []
+    for kind, v in marks:
+        if kind == "cap" and v not in caps:
+            caps.append(v)
+    out = []
+    for kind, v in marks:
+        idx = v if kind == "pos" else len(positional) + caps.index(v)
+        out.append(tup[idx] if idx < len(tup) else None)
+    return out
